@@ -54,7 +54,14 @@ Inductive rkind :=
 | RMockObj            (* a Mock / MagicMock INSTANCE given as new=: callable, takes attributes     *)
 | RClassObj.          (* a class given as new= (calling it runs the replacement's code)           *)
 
-Inductive beh := BRet | BRaise.          (* what the replacement's body does with its arguments *)
+(* what the replacement's body does with its arguments: raises, or returns a value.  The KIND of value
+   is part of the behaviour: a plain value (BRet), None, an exception INSTANCE handed back as data, or a
+   FUTURE OBJECT as the result (a computed ConstFuture, a not yet started AsyncTask, an unflushed batch
+   item).  A future object returned by the replacement is a value like any other: _AsynqWrapper.__call__
+   199-200 puts whatever the replacement returned into a NEW ConstFuture (`FConst` below) and `value` /
+   `yielded` take off exactly that one level, so every convention delivers the very object the body
+   returned (`CReached _ _ b` carries the body's b unchanged). *)
+Inductive beh := BRet | BRaise | BRetNone | BRetExc | BRetFut | BRetTask | BRetBatch.
 
 (* DecoratorBase.type (qcore/decorators.py DecoratorBase.__init__) *)
 Inductive ftype := FPlain | FCM | FSM.
